@@ -341,6 +341,9 @@ func (ms *Modules) Process() []error {
 	ms.mergedSubmodule = map[string]bool{}
 	ms.includes = map[*Module]bool{}
 	ms.ClearEntryCache()
+	ms.nsMu.Lock()
+	ms.byNS = map[string]*Module{}
+	ms.nsMu.Unlock()
 
 	errs := ms.process()
 	if len(errs) > 0 {
